@@ -19,6 +19,7 @@ Variable P : list insn.
 Variable NC : nat.                  (* number of capture slots = 2 * number of groups *)
 Hypothesis HNC : 2 <= NC.           (* group 0 always exists *)
 Variable fuel : nat.
+Hypothesis Hfuel : length t < fuel.   (* the unbounded-repeat fuel never runs out *)
 
 Notation Gen := (Gen cx P).
 Notation steps := (steps cx P).
@@ -153,12 +154,17 @@ Qed.
 
 (* ---------- the statement ---------- *)
 
+Definition segP (pc : nat) (code : list insn) (ns ns' : nat) (f : sst -> list sst) : Prop :=
+  ns <= ns' /\
+  forall v K, ns' <= length (v_sl v) -> st_ok cs (sof v) ->
+  Gen pc (pc + length code) K (RunV pc v K) (map (R v ns ns') (f (sof v))).
+
+Definition oke (g : nat) (e : expr) : Prop := wfe e /\ zok e /\ acheck g e = None.
+
 Definition seg_stmt (e : expr) : Prop := forall g hc pc ns code ns',
   visit bs e g hc pc ns = inr (code, ns') -> nodeleg code -> At pc code ->
-  wfe e -> zok e -> acheck g e = None -> NC <= ns -> 2 * (g + ngroups e) <= NC ->
-  ns <= ns' /\
-  forall v K, ns' <= length (v_sl v) -> st_ok cs (sof v) -> length t - v_ix v < fuel ->
-  Gen pc (pc + length code) K (RunV pc v K) (map (R v ns ns') (sem cx e fuel g (sof v))).
+  oke g e -> NC <= ns -> 2 * (g + ngroups e) <= NC ->
+  segP pc code ns ns' (sem cx e fuel g).
 
 Lemma st_ok_ix v : st_ok cs (sof v) -> v_ix v <= length t.
 Proof. intros [Hb _]. apply bnd_le in Hb. exact Hb. Qed.
@@ -194,21 +200,21 @@ Proof.
 Qed.
 
 Ltac start e :=
-  intros g hc pc ns code ns' Hv Hnd HAt Hw Hz Hac Hns Hng; cbn [visit] in Hv;
+  intros g hc pc ns code ns' Hv Hnd HAt (Hw & Hz & Hac) Hns Hng; cbn [visit] in Hv;
   destruct (negb hc && negb (hard bs g e)) eqn:Edel;
-  [inversion Hv; subst code ns'; split; [lia|]; intros v K Hsl Hok Hfu;
+  [inversion Hv; subst code ns'; split; [lia|]; intros v K Hsl Hok;
    apply seg_deleg; auto using st_ok_ix | ].
 
 Lemma seg_empty : seg_stmt Empty.
 Proof.
-  start Empty. inversion Hv; subst. split; [lia|]. intros v K Hsl Hok Hfu.
+  start Empty. inversion Hv; subst. split; [lia|]. intros v K Hsl Hok.
   cbn [length sem sof]. rewrite Nat.add_0_r. destruct v as [ix sl aux]. cbn [map].
   eapply Gen_one; [apply steps_refl|]. apply R_same. reflexivity.
 Qed.
 
 Lemma seg_any nl : seg_stmt (Any nl).
 Proof.
-  start (Any nl). destruct nl; inversion Hv; subst; (split; [lia|]); intros v K Hsl Hok Hfu;
+  start (Any nl). destruct nl; inversion Hv; subst; (split; [lia|]); intros v K Hsl Hok;
     apply At_cons in HAt as [Ha _]; destruct v as [ix sl aux]; cbn [sem sof v_ix v_sl length];
     rewrite Htext; fold t; replace (pc + 1) with (S pc) by lia.
   - destruct (nth_error t ix) as [b|] eqn:E; cbn [orb map].
@@ -227,7 +233,7 @@ Qed.
 
 Lemma seg_assertion a : seg_stmt (Assertion a).
 Proof.
-  start (Assertion a). inversion Hv; subst. split; [lia|]. intros v K Hsl Hok Hfu.
+  start (Assertion a). inversion Hv; subst. split; [lia|]. intros v K Hsl Hok.
   apply At_cons in HAt as [Ha _]. destruct v as [ix sl aux]. cbn [sem sof v_ix v_sl length].
   replace (pc + 1) with (S pc) by lia.
   pose proof (step_assert cx P pc ix sl aux K a Ha) as Hs.
@@ -240,8 +246,8 @@ Qed.
 Lemma seg_literal val c : seg_stmt (Literal val c).
 Proof.
   start (Literal val c). destruct c.
-  - inversion Hv; subst. split; [lia|]. intros v K Hsl Hok Hfu. apply seg_deleg; auto using st_ok_ix.
-  - inversion Hv; subst. split; [lia|]. intros v K Hsl Hok Hfu.
+  - inversion Hv; subst. split; [lia|]. intros v K Hsl Hok. apply seg_deleg; auto using st_ok_ix.
+  - inversion Hv; subst. split; [lia|]. intros v K Hsl Hok.
     apply At_cons in HAt as [Ha _]. destruct v as [ix sl aux]. cbn [sem sof v_ix v_sl length].
     replace (pc + 1) with (S pc) by lia. rewrite Htext. fold t.
     pose proof (step_lit cx P pc ix sl aux K val Ha) as Hs. rewrite Htext in Hs. fold t in Hs.
@@ -253,7 +259,7 @@ Qed.
 
 Lemma seg_keepout : seg_stmt KeepOut.
 Proof.
-  start KeepOut. inversion Hv; subst. split; [lia|]. intros v K Hsl Hok Hfu.
+  start KeepOut. inversion Hv; subst. split; [lia|]. intros v K Hsl Hok.
   apply At_cons in HAt as [Ha _]. destruct v as [ix sl aux]. cbn [sem sof v_ix v_sl length map] in *.
   replace (pc + 1) with (S pc) by lia. cbn [ngroups] in Hng.
   eapply Gen_one with (v' := {| v_ix := ix; v_sl := upd sl 0 (V ix); v_aux := aux |}).
@@ -264,7 +270,7 @@ Qed.
 
 Lemma seg_contg : seg_stmt ContinueFromPreviousMatchEnd.
 Proof.
-  start ContinueFromPreviousMatchEnd. inversion Hv; subst. split; [lia|]. intros v K Hsl Hok Hfu.
+  start ContinueFromPreviousMatchEnd. inversion Hv; subst. split; [lia|]. intros v K Hsl Hok.
   apply At_cons in HAt as [Ha _]. destruct v as [ix sl aux]. cbn [sem sof v_ix v_sl length].
   replace (pc + 1) with (S pc) by lia.
   pose proof (step_contg cx P pc ix sl aux K Ha) as Hs.
@@ -293,7 +299,7 @@ Qed.
 
 Lemma seg_backref grp : seg_stmt (Backref grp).
 Proof.
-  start (Backref grp). inversion Hv; subst. split; [lia|]. intros v K Hsl Hok Hfu.
+  start (Backref grp). inversion Hv; subst. split; [lia|]. intros v K Hsl Hok.
   apply At_cons in HAt as [Ha _]. cbn [acheck] in Hac. destruct (N.ltb_spec grp (N.of_nat g)); [|discriminate].
   cbn [ngroups] in Hng.
   destruct (getcap_caps (v_sl v) (2 * N.to_nat grp)) as (x1 & E1 & G1); [lia|lia|].
@@ -319,7 +325,7 @@ Qed.
 
 Lemma seg_bec grp : seg_stmt (BackrefExistsCondition grp).
 Proof.
-  start (BackrefExistsCondition grp). inversion Hv; subst. split; [lia|]. intros v K Hsl Hok Hfu.
+  start (BackrefExistsCondition grp). inversion Hv; subst. split; [lia|]. intros v K Hsl Hok.
   apply At_cons in HAt as [Ha _]. cbn [acheck] in Hac. destruct (N.ltb_spec grp (N.of_nat g)); [|discriminate].
   cbn [ngroups] in Hng.
   destruct (getcap_caps (v_sl v) (2 * N.to_nat grp)) as (x1 & E1 & G1); [lia|lia|].
@@ -350,15 +356,15 @@ Proof.
   apply nodeleg_cons in Hnd as [_ Hnd]. apply nodeleg_app in Hnd as [Hndc _].
   cbn [ngroups] in Hng. cbn [wfe] in Hw. cbn [zok] in Hz. cbn [acheck] in Hac.
   replace (pc + 1) with (S pc) in Hc by lia.
-  destruct (IH (S g) hc (S pc) ns cc ns1 Hc Hndc HAc Hw Hz Hac Hns ltac:(lia)) as [Hmono IHc].
-  split; [exact Hmono|]. intros v K Hsl Hok Hfu.
+  destruct (IH (S g) hc (S pc) ns cc ns1 Hc Hndc HAc (conj Hw (conj Hz Hac)) Hns ltac:(lia)) as [Hmono IHc].
+  split; [exact Hmono|]. intros v K Hsl Hok.
   destruct v as [ix sl aux]. cbn [sem sof v_ix v_sl] in *.
   set (v1 := {| v_ix := ix; v_sl := upd sl (g * 2) (V ix); v_aux := aux |}).
   apply Gen_step. unfold RunV at 1; cbn [v_ix v_sl v_aux]. rewrite (step_save cx P pc ix sl aux K _ Ha1) by lia.
   change (Run (S pc) ix (upd sl (g * 2) (V ix)) aux K) with (RunV (S pc) v1 K).
   apply Gen_weaken with (p := S pc); [lia|].
   assert (Hok1 : st_ok cs (sof v1)) by (apply st_ok_upd; auto; lia).
-  specialize (IHc v1 K ltac:(unfold v1; cbn [v_sl]; rewrite upd_length; lia) Hok1 Hfu).
+  specialize (IHc v1 K ltac:(unfold v1; cbn [v_sl]; rewrite upd_length; lia) Hok1).
   replace (sof v1) with (ix, upd (caps sl) (2 * g) (V ix)) in IHc
     by (unfold sof, v1; cbn [v_ix v_sl]; rewrite caps_upd_lt by lia; f_equal; f_equal; lia).
   eapply Gen_map; [| |exact IHc]; [cbn [length]; rewrite app_length; cbn [length]; lia|].
@@ -391,13 +397,13 @@ Proof.
   apply nodeleg_cons in Hnd as [_ Hnd]. apply nodeleg_app in Hnd as [Hndc _].
   cbn [ngroups] in Hng. cbn [wfe] in Hw. cbn [zok] in Hz. cbn [acheck] in Hac.
   replace (pc + 1) with (S pc) in Hc by lia.
-  destruct (IH g false (S pc) ns cc ns1 Hc Hndc HAc Hw Hz Hac Hns ltac:(lia)) as [Hmono IHc].
-  split; [exact Hmono|]. intros v K Hsl Hok Hfu.
+  destruct (IH g false (S pc) ns cc ns1 Hc Hndc HAc (conj Hw (conj Hz Hac)) Hns ltac:(lia)) as [Hmono IHc].
+  split; [exact Hmono|]. intros v K Hsl Hok.
   destruct v as [ix sl aux]. cbn [sem]. 
   set (v1 := {| v_ix := ix; v_sl := sl; v_aux := aux ++ [V (length K)] |}).
   apply Gen_step. unfold RunV at 1; cbn [v_ix v_sl v_aux]. rewrite (step_begin cx P pc ix sl aux K Ha1).
   change (Run (S pc) ix sl (aux ++ [V (length K)]) K) with (RunV (S pc) v1 K).
-  specialize (IHc v1 K Hsl Hok Hfu). change (sof v1) with (sof {| v_ix := ix; v_sl := sl; v_aux := aux |}) in IHc.
+  specialize (IHc v1 K Hsl Hok). change (sof v1) with (sof {| v_ix := ix; v_sl := sl; v_aux := aux |}) in IHc.
   change (let '(ix0, caps0) := sof {| v_ix := ix; v_sl := sl; v_aux := aux |} in
           firstn 1 (sem cx c fuel g (sof {| v_ix := ix; v_sl := sl; v_aux := aux |})))
     with (firstn 1 (sem cx c fuel g (sof {| v_ix := ix; v_sl := sl; v_aux := aux |}))).
@@ -412,6 +418,247 @@ Proof.
     + constructor.
     + unfold R; cbn [v_ix v_sl v_aux]. auto.
     + apply Gen_nil. apply steps_refl.
+Qed.
+
+(* ---------- sequencing ---------- *)
+
+Lemma segP_app pc c1 c2 ns ns1 ns2 f1 f2 :
+  segP pc c1 ns ns1 f1 -> segP (pc + length c1) c2 ns1 ns2 f2 ->
+  (forall st st', st_ok cs st -> In st' (f1 st) -> st_ok cs st') ->
+  segP pc (c1 ++ c2) ns ns2 (fun st => flat_map f2 (f1 st)).
+Proof.
+  intros [M1 G1] [M2 G2] Hpres. split; [lia|]. intros v K Hsl Hok.
+  rewrite app_length, Nat.add_assoc. rewrite <- concat_map_map.
+  eapply Gen_bind with (r := pc + length c1); [lia| |].
+  - eapply Gen_weaken with (p := pc); [lia|]. apply G1; auto. lia.
+  - apply Forall2_same_map. intros a Ha v1 K' (Hi & Hcp & Hax & Hfr).
+    assert (Es : sof v1 = a) by (apply sof_eq; auto).
+    eapply Gen_weaken with (p := pc + length c1); [lia|].
+    eapply Gen_impl; [|apply G2].
+    + rewrite Es. apply Forall2_same_map. intros b Hb v2 (Hi2 & Hcp2 & Hax2 & Hfr2).
+      unfold R. repeat split; try tauto; try congruence.
+      * destruct Hfr as [L1 _], Hfr2 as [L2 _]. congruence.
+      * intros j Hj Ho. destruct Hfr as [_ F1], Hfr2 as [_ F2]. rewrite F2, F1; auto; lia.
+    + destruct Hfr as [L1 _]. lia.
+    + rewrite Es. eapply Hpres; eauto.
+Qed.
+
+Lemma segP_ext pc c ns ns' f f' : (forall st, st_ok cs st -> f st = f' st) -> segP pc c ns ns' f -> segP pc c ns ns' f'.
+Proof. intros He [M G]. split; auto. intros v K Hsl Hok. rewrite <- He by auto. auto. Qed.
+
+Lemma segP_nil pc ns : segP pc [] ns ns (fun st => [st]).
+Proof.
+  split; auto. intros v K Hsl Hok. cbn [length map]. rewrite Nat.add_0_r.
+  eapply Gen_one; [apply steps_refl|]. apply R_same. reflexivity.
+Qed.
+
+Definition okl (g : nat) (l : list expr) : Prop := oke g (Concat l).
+
+Lemma okl_cons g x r : okl g (x :: r) <-> oke g x /\ okl (g + ngroups x) r.
+Proof.
+  unfold okl, oke. rewrite !wfe_concat, !zok_concat, !acheck_concat. cbn [wfe_list zok_list acheck_list].
+  destruct (acheck g x); intuition discriminate.
+Qed.
+Lemma ngl_cons x a : ngroups_list (x :: a) = ngroups x + ngroups_list a. Proof. reflexivity. Qed.
+Lemma ngl_nil : ngroups_list [] = 0. Proof. reflexivity. Qed.
+Lemma okl_app g a b : okl g (a ++ b) <-> okl g a /\ okl (g + ngroups_list a) b.
+Proof.
+  revert g. induction a as [|x a IH]; intros g; cbn [app]; rewrite ?ngl_cons, ?ngl_nil.
+  - rewrite Nat.add_0_r. unfold okl at 2, oke. cbn. tauto.
+  - rewrite !okl_cons, IH, Nat.add_assoc. tauto.
+Qed.
+
+Lemma sem_cat_ok l fu g st st' : wfe_list l -> st_ok cs st -> In st' (sem_cat cx fu g l st) -> st_ok cs st'.
+Proof.
+  intros Hw Hs Hin. rewrite <- sem_concat_eq in Hin.
+  destruct (sem_sound cs W cx Htext Hlen (Concat l) ltac:(now rewrite wfe_concat) fu g st st' Hs Hin) as (n & [Hok _] & _).
+  exact Hok.
+Qed.
+
+Lemma sem_ok e fu g st st' : wfe e -> st_ok cs st -> In st' (sem cx e fu g st) -> st_ok cs st'.
+Proof.
+  intros Hw Hs Hin. destruct (sem_sound cs W cx Htext Hlen e Hw fu g st st' Hs Hin) as (n & [Hok _] & _).
+  exact Hok.
+Qed.
+
+Lemma flat_map_flat_map' {A B C} (f : A -> list B) (h : B -> list C) l :
+  flat_map h (flat_map f l) = flat_map (fun x => flat_map h (f x)) l.
+Proof. induction l as [|a l IH]; simpl; auto. now rewrite flat_map_app, IH. Qed.
+
+Lemma sem_cat_app fu a : forall g b st,
+  sem_cat cx fu g (a ++ b) st = flat_map (sem_cat cx fu (g + ngroups_list a) b) (sem_cat cx fu g a st).
+Proof.
+  induction a as [|x a IH]; intros g b st; cbn [app sem_cat]; rewrite ?ngl_cons, ?ngl_nil.
+  - rewrite Nat.add_0_r. cbn [flat_map]. now rewrite app_nil_r.
+  - rewrite flat_map_flat_map'. apply flat_map_ext. intros s. rewrite IH. now rewrite Nat.add_assoc.
+Qed.
+
+Fixpoint visit_list (g pc ns : nat) (l : list expr) : cerr + cres :=
+  match l with
+  | [] => inr ([], ns)
+  | x :: r =>
+      bindc (visit bs x g true pc ns) (fun '(c, ns1) =>
+      bindc (visit_list (g + ngroups x) (pc + length c) ns1 r) (fun '(c2, ns2) =>
+      inr (c ++ c2, ns2)))
+  end.
+
+Lemma seg_list : forall B, Forall seg_stmt B -> forall g pc ns code ns',
+  visit_list g pc ns B = inr (code, ns') -> nodeleg code -> At pc code ->
+  okl g B -> NC <= ns -> 2 * (g + ngroups_list B) <= NC ->
+  segP pc code ns ns' (sem_cat cx fuel g B).
+Proof.
+  induction 1 as [|x r Hx Hr IH]; intros g pc ns code ns' Hv Hnd HAt Hokl Hns Hng; cbn [visit_list] in Hv.
+  - inversion Hv; subst. apply segP_nil.
+  - apply bindc_inr in Hv as ([c1 ns1] & H1 & Hv). apply bindc_inr in Hv as ([c2 ns2] & H2 & Hv).
+    inversion Hv; subst code ns'. clear Hv.
+    apply nodeleg_app in Hnd as [Hn1 Hn2]. apply At_app in HAt as [HA1 HA2].
+    apply okl_cons in Hokl as [Ho1 Ho2]. rewrite ngl_cons in Hng.
+    pose proof (Hx g true pc ns c1 ns1 H1 Hn1 HA1 Ho1 Hns ltac:(lia)) as S1.
+    assert (M1 : ns <= ns1) by apply S1.
+    pose proof (IH _ _ _ _ _ H2 Hn2 HA2 Ho2 ltac:(lia) ltac:(lia)) as S2.
+    cbn [sem_cat]. apply segP_app with (ns1 := ns1); auto.
+    intros st st' Hs Hin. eapply sem_ok; eauto. apply Ho1.
+Qed.
+
+Lemma seg_delegates l g pc ns : nodeleg (delegates l g) -> At pc (delegates l g) ->
+  segP pc (delegates l g) ns ns (sem_cat cx fuel g l).
+Proof.
+  intros Hn Ha. destruct l as [|x r]; [apply segP_nil|].
+  unfold delegates in *. destruct (forallb is_literal (x :: r)) eqn:El; [|cbn in Hn; discriminate].
+  apply At_cons in Ha as [Ha _]. split; auto. intros v K Hsl Hok.
+  rewrite sem_cat_literals; [|exact El|exact (st_ok_ix v Hok)]. rewrite flat_map_push_literal in *.
+  unfold lit_res. cbn [fst snd sof length]. replace (pc + 1) with (S pc) by lia.
+  pose proof (step_lit cx P pc (v_ix v) (v_sl v) (v_aux v) K _ Ha) as Hs. rewrite Htext in Hs. fold t in Hs.
+  destruct (lit_at t (v_ix v) (push_literals (x :: r))); cbn [map].
+  - eapply (Gen_one pc (S pc) K v {| v_ix := v_ix v + length (push_literals (x :: r)); v_sl := v_sl v; v_aux := v_aux v |}).
+    + apply steps_step. exact Hs.
+    + unfold R; cbn [v_ix v_sl v_aux fst snd]. repeat split; auto.
+  - apply Gen_none. apply steps_step. exact Hs.
+Qed.
+
+(* ---------- Concat ---------- *)
+
+Definition mid_go (pe sb : nat) := fix go (i g pc ns : nat) (l : list expr) : cerr + cres :=
+  match l with
+  | [] => inr ([], ns)
+  | x :: r =>
+      if (pe <=? i) && (i <? sb) then
+        bindc (visit bs x g true pc ns) (fun '(c, ns1) =>
+        bindc (go (S i) (g + ngroups x) (pc + length c) ns1 r) (fun '(c2, ns2) =>
+        inr (c ++ c2, ns2)))
+      else go (S i) (g + ngroups x) pc ns r
+  end.
+
+Lemma visit_concat es g hc pc ns :
+  visit bs (Concat es) g hc pc ns =
+  if negb hc && negb (hard bs g (Concat es)) then inr (delegate1 (Concat es) g, ns) else
+  let kids := with_groups g es in
+  let pe := prefix_count bs g es in
+  let rest := skipn pe kids in
+  let sl := if hc then take_while_count (fun p => const_size (fst p) && negb (hard bs (snd p) (fst p))) (rev rest)
+            else take_while_count (fun p => negb (hard bs (snd p) (fst p))) (rev rest) in
+  let sb := length es - sl in
+  let pre := delegates (firstn pe es) g in
+  bindc (mid_go pe sb 0 g (pc + length pre) ns es) (fun '(cm, ns1) =>
+     let suf := skipn sb kids in
+     let sufg := match suf with (_, g') :: _ => g' | [] => g end in
+     inr (pre ++ cm ++ delegates (map fst suf) sufg, ns1)).
+Proof. reflexivity. Qed.
+
+Lemma mid_after pe sb : forall l i g pc ns, sb <= i -> mid_go pe sb i g pc ns l = inr ([], ns).
+Proof.
+  induction l as [|x r IH]; intros i g pc ns H; cbn [mid_go]; auto.
+  destruct (Nat.ltb_spec i sb); [lia|]. rewrite andb_false_r. apply IH. lia.
+Qed.
+
+Lemma mid_before pe sb l' pc ns : forall a i g, i + length a <= pe ->
+  mid_go pe sb i g pc ns (a ++ l') = mid_go pe sb (i + length a) (g + ngroups_list a) pc ns l'.
+Proof.
+  induction a as [|x a IH]; intros i g H; cbn [app length]; rewrite ?ngl_cons, ?ngl_nil.
+  - now rewrite !Nat.add_0_r.
+  - cbn [length] in H. cbn [mid_go]. destruct (Nat.leb_spec pe i); [lia|]. cbn [andb].
+    rewrite IH by lia. f_equal; lia.
+Qed.
+
+Lemma mid_mid pe sb C : forall B i g pc ns, pe <= i -> i + length B = sb ->
+  mid_go pe sb i g pc ns (B ++ C) = visit_list g pc ns B.
+Proof.
+  induction B as [|x B IH]; intros i g pc ns H1 H2; cbn [app length visit_list] in *.
+  - apply mid_after. lia.
+  - cbn [mid_go]. destruct (Nat.leb_spec pe i); [|lia]. destruct (Nat.ltb_spec i sb); [|lia]. cbn [andb].
+    destruct (visit bs x g true pc ns) as [er|[c ns1]]; cbn [bindc]; auto.
+    rewrite IH by lia. reflexivity.
+Qed.
+
+Lemma take_while_count_le {A} (f : A -> bool) l : take_while_count f l <= length l.
+Proof. induction l; simpl; auto. destruct (f a); lia. Qed.
+Lemma with_groups_length : forall es g, length (with_groups g es) = length es.
+Proof. induction es; intros; simpl; auto. Qed.
+Lemma prefix_count_le : forall es g, prefix_count bs g es <= length es.
+Proof.
+  unfold prefix_count. induction es as [|x r IH]; intros g; auto.
+  destruct (const_size x && negb (hard bs g x)); cbn [length]; [|lia]. specialize (IH (g + ngroups x)). lia.
+Qed.
+Lemma skipn_with_groups : forall a g c, skipn (length a) (with_groups g (a ++ c)) = with_groups (g + ngroups_list a) c.
+Proof.
+  induction a as [|x a IH]; intros g c; cbn [app length skipn with_groups]; rewrite ?ngl_cons, ?ngl_nil.
+  - now rewrite Nat.add_0_r.
+  - rewrite IH. f_equal. lia.
+Qed.
+Lemma map_fst_with_groups : forall c g, map fst (with_groups g c) = c.
+Proof. induction c; intros; simpl; auto. now rewrite IHc. Qed.
+Lemma ngl_app a b : ngroups_list (a ++ b) = ngroups_list a + ngroups_list b.
+Proof. induction a as [|x a IH]; cbn [app]; rewrite ?ngl_cons, ?ngl_nil; lia. Qed.
+
+Lemma split3 {X} (l : list X) p s : p <= s <= length l ->
+  exists A B C, l = A ++ B ++ C /\ length A = p /\ length B = s - p /\ A = firstn p l.
+Proof.
+  intros H. exists (firstn p l), (firstn (s - p) (skipn p l)), (skipn (s - p) (skipn p l)).
+  split; [now rewrite !firstn_skipn|]. split; [apply firstn_length_le; lia|]. split; auto.
+  apply firstn_length_le. rewrite skipn_length. lia.
+Qed.
+
+Lemma seg_concat es : Forall seg_stmt es -> seg_stmt (Concat es).
+Proof.
+  intros IH g hc pc ns code ns' Hv Hnd HAt Hok Hns Hng. rewrite visit_concat in Hv.
+  destruct (negb hc && negb (hard bs g (Concat es))) eqn:Edel.
+  { inversion Hv; subst code ns'. split; [lia|]. intros v K Hsl Hokv. apply seg_deleg; auto using st_ok_ix. }
+  cbv zeta in Hv.
+  set (pe := prefix_count bs g es) in *.
+  set (sl := if hc then _ else _) in Hv.
+  assert (Hpe : pe <= length es) by apply prefix_count_le.
+  assert (Hsl : sl <= length es - pe).
+  { unfold sl. destruct hc; (etransitivity; [apply take_while_count_le|]);
+      rewrite rev_length, skipn_length, with_groups_length; lia. }
+  set (sb := length es - sl) in *.
+  destruct (split3 es pe sb ltac:(lia)) as (A & B & C & Hes & HlA & HlB & HA).
+  rewrite <- HA in Hv. clear HA.
+  apply bindc_inr in Hv as ([cm ns1] & Hm & Hv). inversion Hv; subst code ns'. clear Hv.
+  rewrite Hes in Hm. rewrite (mid_before pe sb (B ++ C) _ ns A 0 g) in Hm by lia.
+  rewrite (mid_mid pe sb C B) in Hm by lia. cbn [Nat.add] in Hm.
+  assert (Esuf : skipn sb (with_groups g es) = with_groups (g + ngroups_list (A ++ B)) C).
+  { rewrite Hes, app_assoc. replace sb with (length (A ++ B)) by (rewrite app_length; lia). apply skipn_with_groups. }
+  rewrite Esuf in *.
+  assert (Edl : delegates (map fst (with_groups (g + ngroups_list (A ++ B)) C))
+                  match with_groups (g + ngroups_list (A ++ B)) C with (_, g') :: _ => g' | [] => g end
+                = delegates C (g + ngroups_list (A ++ B))).
+  { rewrite map_fst_with_groups. destruct C; reflexivity. }
+  rewrite Edl in *. clear Edl Esuf.
+  rewrite Hes in IH. apply Forall_app in IH as [_ IH]. apply Forall_app in IH as [IHB _].
+  rewrite ngroups_concat, Hes, !ngl_app in Hng. unfold okl in *.
+  change (okl g es) in Hok. rewrite Hes in Hok. apply okl_app in Hok as [HoA Hok]. apply okl_app in Hok as [HoB HoC].
+  apply nodeleg_app in Hnd as [HnA Hnd]. apply nodeleg_app in Hnd as [HnB HnC].
+  apply At_app in HAt as [HAA HAt]. apply At_app in HAt as [HAB HAC].
+  pose proof (seg_delegates A g pc ns HnA HAA) as SA.
+  pose proof (seg_list B IHB _ _ _ _ _ Hm HnB HAB HoB Hns ltac:(lia)) as SB.
+  rewrite ngl_app, Nat.add_assoc in *.
+  pose proof (seg_delegates C _ _ ns1 HnC HAC) as SC.
+  assert (PB : forall st st', st_ok cs st -> In st' (sem_cat cx fuel (g + ngroups_list A) B st) -> st_ok cs st').
+  { intros st st' Hs Hin. eapply sem_cat_ok; eauto. destruct HoB as [HwB _]. now rewrite wfe_concat in HwB. }
+  assert (PA : forall st st', st_ok cs st -> In st' (sem_cat cx fuel g A st) -> st_ok cs st').
+  { intros st st' Hs Hin. eapply sem_cat_ok; eauto. destruct HoA as [HwA _]. now rewrite wfe_concat in HwA. }
+  eapply segP_ext; [|apply (segP_app _ _ _ _ _ _ _ _ SA (segP_app _ _ _ _ _ _ _ _ SB SC PB) PA)].
+  intros st Hst. rewrite sem_concat_eq, Hes, sem_cat_app. apply flat_map_ext. intros s. now rewrite sem_cat_app.
 Qed.
 
 End CC.
